@@ -19,6 +19,7 @@ oracle      by construction, independent of model and code: an identifier is ass
 import itertools
 import json
 import os
+import re
 
 from . import common, gen
 from .common import hexs, unhex
@@ -67,6 +68,34 @@ def assemble(st, lead, pre, mid, suf, dbl="none", trail=""):
     return lead + out + trail
 
 
+def ref_words(ident):
+    """reference word splitter = the boundary rules of the tokenizer for acronym-free text: separators, lower->UPPER,
+    digit->UPPER, and the last capital of an UPPER run that is followed by lower case (XFoo -> X|Foo).  letter->digit and
+    digit->lower do NOT start a word (foo2 / x2foo are one word)."""
+    words = []
+    for chunk in re.split(r"[_\-. ]+", ident):
+        if not chunk:
+            continue
+        cur = chunk[0]
+        for i in range(1, len(chunk)):
+            p, c = chunk[i - 1], chunk[i]
+            nxt = chunk[i + 1] if i + 1 < len(chunk) else ""
+            split = (p.islower() and c.isupper()) or (p.isdigit() and c.isupper()) or \
+                    (p.isupper() and c.isupper() and nxt.islower())
+            if split:
+                words.append(cur)
+                cur = c
+            else:
+                cur += c
+        words.append(cur)
+    return [w.lower() for w in words]
+
+
+def has_word_sequence(ident, term):
+    ws, t = ref_words(ident), [w.lower() for w in term]
+    return any(ws[i:i + len(t)] == t for i in range(len(ws) - len(t) + 1))
+
+
 class Case:
     __slots__ = ("st", "lead", "pre", "suf", "dbl", "trail", "term", "repl", "variant", "ident", "expected", "styles",
                  "search", "replace", "near", "outer", "mid_words")
@@ -104,6 +133,20 @@ class Case:
         # the bytes outside the term's span, by construction
         self.outer = tuple(assemble(st, lead, pre, ["@"], suf, dbl, trail).split("@"))
         self.mid_words = r
+        if variant == "digit_glued_before":
+            # a digit glued directly in front of the term (x2foo_bar, MY_X2FOO_BAR, load3fooBar ...): by the tokenizer's rules
+            # digit->lower does not start a word (near miss, must stay untouched), digit->UPPER does (a legitimate occurrence)
+            P, S = self.outer
+            T = self.ident[len(P):len(self.ident) - len(S)]
+            R = self.expected[len(P):len(self.expected) - len(S)]
+            glue = "x2" if (T[0].islower() and (not P or not P[-1].isalpha() or P[-1].islower())) else "X2"
+            if st == "camel" and P and P[-1].isalpha():
+                glue = "X2"           # keeps the hump boundary in front of the glued word: myX2FooBar
+            self.ident, self.expected, self.outer = P + glue + T + S, P + glue + R + S, (P + glue, S)
+            self.near = not T[0].isupper()
+        elif variant == "digit_glued":
+            self.near = True          # foo_bar2: letter->digit does not start a word, `bar2` is one word
+            self.expected = self.ident
         self.styles = CLI_DOT if st == "dot" else CLI_STYLES
         self.search, self.replace = gen.render(typed[0], term), gen.render(typed[1], repl)
 
@@ -161,11 +204,13 @@ class Case:
         return out
 
 
+NEAR_TERMS = [TERMS[2], TERMS[3], ["foo", "v2"]]      # the last one ends in a digit (right-hand mirror: foo_v2x)
+
+
 def near_cases():
-    """identifiers that contain the term's letters but not its word sequence"""
+    """identifiers that contain the term's letters but not its word sequence (checked against `ref_words`)"""
     out = []
-    for n in (2, 3):
-        term = TERMS[n]
+    for term in NEAR_TERMS:
         for st in FAMILY_STYLES + ["lower_flat", "upper_flat"]:
             core = gen.render(st, term)
             lo, up = "x", "X"
@@ -173,6 +218,10 @@ def near_cases():
             lefts = [up if first_upper and st in ("screaming_snake", "upper_flat") else lo] if st not in ("pascal", "train") else []
             if st in ("pascal", "train"):
                 lefts = []           # x|Foo is a case boundary and XFoo.. splits as X|Foo..: both contain the word sequence
+            # a digit glued in front: digit->lower does not start a word (x2foo_bar, 2foo_bar, v10fooBar are near misses);
+            # digit->UPPER does, so upper-initial renderings get no digit on the left here (they are in the family)
+            if not first_upper:
+                lefts += ["2", "x2", "v10"]
             rights = ["N"] if last_upper else ["n"]
             cands = []
             for l in lefts:
@@ -182,7 +231,8 @@ def near_cases():
             for l in lefts:
                 for r in rights:
                     cands.append(l + core + r)
-            cands.append(core + "2")
+            # a digit glued behind: letter->digit does not start a word (foo_bar2, fooBar10, foo_bar2x)
+            cands += [core + "2", core + "10", core + "2x"]
             if st in ("lower_flat", "upper_flat"):
                 cands.append(core)       # flat concatenation: not an enabled style
             if st == "camel":
@@ -193,19 +243,29 @@ def near_cases():
                 w0 = piece(st, term[0], True)
                 cands.append(w0[:1] + sep + w0[1:] + sep + sep.join(piece(st, w, False) for w in term[1:]))
                 wl = piece(st, term[-1], False)
-                cands.append(sep.join(piece(st, w, i == 0) for i, w in enumerate(term[:-1])) + sep + wl[:2] + sep + wl[2:])
+                if len(wl) >= 3:
+                    cands.append(sep.join(piece(st, w, i == 0) for i, w in enumerate(term[:-1])) + sep + wl[:2] + sep + wl[2:])
             for ident in cands:
                 for (a, b) in (("", ""), ("my", ""), ("", "item"), ("my", "item")):
                     full = ident
-                    s2 = sep if sep else "_"
-                    if st in HUMP or not sep:
+                    if st in ("lower_flat", "upper_flat"):
                         if a or b:
                             continue
+                    elif st in HUMP:
+                        # inside a longer hump identifier: load3fooBar, myXfooBar, fooBarnItem
+                        if a and not (ident[0].isupper() or ident[0].isdigit() or st == "camel"):
+                            continue
+                        if a:
+                            full = (a if st == "camel" else cap(a)) + full
+                        if b:
+                            if full[-1].isdigit():
+                                continue      # digit->UPPER would start a new word right after the glued digit: fine, but keep it simple
+                            full = full + cap(b)
                     else:
                         if a:
-                            full = piece(st, a, True) + s2 + full
+                            full = piece(st, a, True) + sep + full
                         if b:
-                            full = full + s2 + piece(st, b, False)
+                            full = full + sep + piece(st, b, False)
                     c = Case(st if st in SEP else "snake", "", [], [], "none", "", term, REPLS[2])
                     c.ident, c.expected, c.near = full, full, True
                     c.variant = "near:" + st
@@ -214,10 +274,24 @@ def near_cases():
     return out
 
 
+def check_generators(cases):
+    """the by-construction labels against the reference word splitter: a near miss must not contain the term's word
+    sequence, an ordinary family member must.  Returns the first inconsistent case (a bug of the generator)."""
+    for c in cases:
+        if c.variant == "plural":
+            continue
+        has = has_word_sequence(c.ident, c.term)
+        if c.near and has:
+            return c, "labelled near miss but the reference splitter finds the term's word sequence"
+        if not c.near and not has:
+            return c, "labelled as containing the term but the reference splitter does not find its word sequence"
+    return None
+
+
 def family(thorough):
     """the exhaustive by-construction family"""
     out = []
-    variants = ["plain", "digit_suffix_word", "digit_prefix_word", "digit_glued", "plural"]
+    variants = ["plain", "digit_suffix_word", "digit_prefix_word", "digit_glued", "digit_glued_before", "plural"]
     for st in FAMILY_STYLES:
         sep = SEP[st]
         trails = ["", sep] if sep else ["", "_"]
@@ -260,7 +334,7 @@ def random_cases(rng, n):
         lead = rng.choice(["", "", "_", "__"])
         trail = rng.choice(["", "", sep if sep else "_"])
         dbl = rng.choice(["none", "none", "none", "pre", "suf"]) if sep else "none"
-        variant = rng.choice(["plain"] * 5 + ["digit_suffix_word", "digit_prefix_word", "digit_glued", "plural"])
+        variant = rng.choice(["plain"] * 5 + ["digit_suffix_word", "digit_prefix_word", "digit_glued", "digit_glued_before", "plural"])
         if variant == "digit_suffix_word" and not sep:
             variant = "plain"
         if variant == "plural" and not all(w[-1] not in "sxy" and not w.endswith("a") for w in (term[-1], repl[-1])):
@@ -592,6 +666,10 @@ def run(ctx):
     for name, obj in load_corpus():
         replay_witness(ctx, name, obj, judge)
     fam = family(ctx.thorough)
+    bad = check_generators(fam + near_cases())
+    if bad:
+        ctx.broke("machinery", "generator labels vs reference word splitter", {"case": bad[0].describe(), "why": bad[1]})
+        return
     run_cases(ctx, judge, fam, "family", e2e_every=1 if ctx.thorough else 4)
     ctx.sample({"family": fam[len(fam) // 2].describe()})
     near = near_cases()
